@@ -92,10 +92,9 @@ def floatSpec? : Sx → Option FloatSpec
           ← dim? mn, ← dim? mx, ← mc.rat?, ← xc.rat?, ← hw.rat?, ← hn.rat?⟩
   | _ => none
 
-/-- `(w0 w h (<abox>…) <inline-block?>)` -/
+/-- `(w0 w h (<abox>…))` -/
 def lineSpec? : Sx → Option LineSpec
-  | .list [w0, w, h, .list fs, ib] => do
-    pure ⟨← w0.rat?, ← w.rat?, ← h.rat?, ← allSome abox? fs, ← ib.bool?⟩
+  | .list [w0, w, h, .list fs] => do pure ⟨← w0.rat?, ← w.rat?, ← h.rat?, ← allSome abox? fs⟩
   | _ => none
 
 def align? : Sx → Option Align
